@@ -224,6 +224,8 @@ pub struct Stats {
     pub distinct: std::collections::BTreeSet<u64>,
     pub distinct_nontrivial: std::collections::BTreeSet<u64>,
     pub sample_ctr: u64,
+    pub classified_kept: u64,
+    pub unclassified_kept: u64,
 }
 
 impl Stats {
@@ -249,8 +251,20 @@ impl Stats {
         }
     }
     pub fn fail(&mut self, json_obj: String) {
-        if self.failures.len() < 200 {
-            self.failures.push(json_obj);
+        // failures that carry a known-finding class are kept up to 40 per run, the others up to 200,
+        // so that an unclassified failure is never crowded out by known ones
+        if json_obj.contains("\"class\":") {
+            self.classified_kept += 1;
+            if self.classified_kept <= 40 {
+                self.failures.push(json_obj);
+            }
+            self.inc("direct_failures_classified");
+        } else {
+            self.unclassified_kept += 1;
+            if self.unclassified_kept <= 200 {
+                self.failures.push(json_obj);
+            }
+            self.inc("direct_failures_unclassified");
         }
         self.inc("direct_failures");
     }
